@@ -67,7 +67,8 @@ ResolveR(n, steps, acc) ==
 NDistinct(L) == Cardinality({q \in 1..Len(L) : ~\E p \in 1..(q - 1) : L[p] = L[q]})
 LocateOK(cs, res, max, E) ==
   LET L == LocsOnly(E)
-      dup == UnionDup(cs.path)
+      \* the path reaches a location twice: a union listing an item twice, or [0,-1] on a one-element array
+      dup == UnionDup(cs.path) \/ NDistinct(L) < Len(L)
       R == [j \in 1..Len(res.r) |-> ResolveR(cs.data, res.r[j], <<>>)] IN
   /\ res.n
   /\ \A j \in 1..Len(R) : R[j].ok /\ \E q \in 1..Len(L) : L[q] = R[j].loc
@@ -96,7 +97,7 @@ WalkOK(cs, res, E) ==
   /\ \A j \in 1..Len(R) : LET nodes == res.r[j].nodes IN
         /\ Len(nodes) = Len(RL[j]) + 1
         /\ \A q \in 1..Len(nodes) : nodes[q] = At(cs.data, SubSeq(RL[j], 1, q - 1))
-  /\ (SameBag(RL, LocsOnly(E)) \/ (UnionDup(cs.path) /\ SameBag(RL, LocsOnly(Dedup(E)))))
+  /\ (SameBag(RL, LocsOnly(E)) \/ SameBag(RL, LocsOnly(Dedup(E))))    \* a location reached twice: with or without the repetition
 WalkDev(cs, g, res, E) ==
   IF res.p THEN Abn(cs, g, "Walk", res)
   ELSE IF WalkOK(cs, res, E) THEN <<>>
